@@ -3,7 +3,8 @@
    the fixture module of the conformance harness (packages p, q, r; r imports p) in its three layouts. *)
 EXTENDS Naturals, Sequences, FiniteSets
 
-Rendered(b) == b \in {"render", "ignore_render", "mixed"}      \* the generator renders something for the package
+Rendered(b) == b \in {"render", "ignore_render", "mixed", "defer_only"}      \* the generator renders something for the package (defer_only: from its deferred callback alone)
+Blank(b)    == b = "blank"                                    \* ... renders white space only: whether that is "something" is left open
 Ignored(b)  == b \in {"ignore", "ignore_render"}               \* ... signals ErrIgnore for one of its types
 
 FixPkgs == {"p", "q", "r"}
